@@ -978,3 +978,19 @@ mod tests {
         }
     }
 }
+
+// ========================================================================
+// Verification hooks (only with `--cfg crrl_verif`).
+
+#[cfg(crrl_verif)]
+impl Point {
+    /// Internal edwards448 point representing this element.
+    pub fn verif_inner(&self) -> Ed448Point {
+        self.0
+    }
+
+    /// Wrap an edwards448 point (not validated).
+    pub fn verif_from_inner(P: &Ed448Point) -> Self {
+        Self(*P)
+    }
+}
